@@ -99,6 +99,19 @@ def handle (rep : Report) (ln : Nat) (toks : List String) (obs : String) : Repor
       if mine == obs then rep
       else { rep.msg s!"DIVERGE line={ln} model={mine} impl={obs}" with diverged := rep.diverged + 1 }
     | _, _ => rep.msg s!"BAD line={ln} (unparsable value or non-UTF-8 locator)"
+  | "deep" :: rest =>
+    -- a locator with `segments` segments on a value that can be followed that far (a cycle), run in a child process
+    -- with a lowered stack limit: the model (structural recursion, no stack) says ["k"]
+    let a := args rest
+    let rep := { rep with episodes := rep.episodes + 1 }
+    let rep := rep.bump s!"kp.deep_locator_{arg a "segments"}_{obs.takeWhile (· != ' ')}"
+    let mine := "ok " ++ stringToHex "k"
+    if obs == "inconclusive" then rep
+    else if obs == "crashed" then
+      -- C11 "never panics": the process died of stack exhaustion (K10)
+      { rep.msg s!"MONITOR property=C11 clause=keys_total line={ln}" with monitorFails := rep.monitorFails + 1 }
+    else if mine == obs then rep
+    else { rep.msg s!"DIVERGE line={ln} model={mine} impl={obs}" with diverged := rep.diverged + 1 }
   | _ => rep.msg s!"BAD line={ln}"
 
 end GcpVerif.Driver.KpDrv
